@@ -29,6 +29,7 @@ type Cfg struct {
 	Scn      string     `json:"scn"` // select | insert | stream
 	NeedInfo bool       `json:"needInfo"`
 	Ext      bool       `json:"ext"`
+	ExtBlank bool       `json:"extBlank"` // external data without a table name of the caller's (the library's default name applies)
 	Script   []Item     `json:"script"`
 	Plan     []PlanStep `json:"plan"`
 	Present  []string   `json:"present"`
@@ -438,7 +439,9 @@ func (r *runner) query() ch.Query {
 		var e proto.ColUInt8
 		e.Append(7)
 		q.ExternalData = []proto.InputColumn{{Name: "e", Data: &e}}
-		q.ExternalTable = "ext1"
+		if !cfg.ExtBlank {
+			q.ExternalTable = "ext1"
+		}
 	}
 	if r.present("result") && (cfg.Scn == "select" || !cfg.NeedInfo) {
 		q.OnResult = func(ctx context.Context, b proto.Block) error {
